@@ -224,6 +224,17 @@ def rule_r3(p, res):
         st = stmt_of(c)
         mk_name = norm(c.args[0])
         mine = [n for n, k in reidx if k == mk_name]
+        # the root being shifted must be expressed in the index space of the arrays that were just masked:
+        # self.root_vertex for self.adjacency_matrix, the already renumbered local root for the local arrays
+        space = "self.root_vertex" if norm(c.args[1]) == "self.adjacency_matrix" else "root_vertex"
+        near = [n for n in mine if g.reaches(st, n) and not any(g.reaches(stmt_of(o), n) and g.reaches(st, stmt_of(o)) and stmt_of(o) is not st for o in cs if o is not c and norm(o.args[0]) != mk_name)]
+        for n in mine:
+            if g.reaches(st, n):
+                src = norm(n.value.left)
+                # re-index statements that follow this masking step directly (same block)
+                if getattr(n, "_parent", None) is getattr(st, "_parent", None):
+                    r.check(src == space, m, n, "after masking `%s` the root is shifted starting from `%s`, but the arrays just masked are indexed like `%s`: after a second "
+                            "masking step the root would be computed from a stale numbering" % (norm(c.args[1]), src, space), {"masked": norm(c.args[1]), "root_source": src})
         others = [stmt_of(x) for x in cs if x is not c]
         # every path from this masking step to a return or to another masking step passes a re-index with the same mask
         ok = bool(mine) and g.all_paths_after_pass(st, mine, cfgmod.RETURN) and all(not g.reaches(st, o, avoid=mine) or o is st for o in others)
@@ -331,7 +342,35 @@ def rule_r5(p, res):
     r.check(any(x.startswith("Tree.__init__(self, adjacency_matrix, root_vertex") for x in cs), pt, pt.node, "PointTree must initialise its Tree part with the root")
 
 
-RULES = [rule_r1, rule_r2, rule_r3, rule_r4, rule_r5]
+def rule_r6(p, res):
+    r = res.rule("C14.R6", "cycle detector: depth-first discipline (entered before, exited after all successors)")
+    f = p.func(G + "_has_cycles")
+    r.instance(f)
+    inner = [n for n in f.node.body if isinstance(n, ast.FunctionDef)]
+    need(len(inner) == 1, "C14.R6: _has_cycles must define one recursive helper")
+    dfs = inner[0]
+    node = dfs.args.args[0].arg
+    loops = [n for n in walk_own(dfs) if isinstance(n, ast.For)]
+    need(len(loops) == 1 and norm(loops[0].iter) == "adjacency_list[%s]" % node, "C14.R6: successor loop not recognised")
+    lp = loops[0]
+    ent = [stmt_of(k) for k in calls_in(dfs) if norm(k) == "entered.add(%s)" % node]
+    ext = [stmt_of(k) for k in calls_in(dfs) if norm(k) == "exited.add(%s)" % node]
+    need(len(ent) == 1 and len(ext) == 1, "C14.R6: entered/exited bookkeeping not recognised")
+    par = getattr(lp, "_parent", None)
+    same_block = getattr(ent[0], "_parent", None) is par and getattr(ext[0], "_parent", None) is par
+    r.check(same_block and ent[0].lineno < lp.lineno < ext[0].lineno and not any(ext[0] is x for x in ast.walk(lp)), f, ext[0],
+            "a vertex must be marked exited once, after *all* of its successors have been explored (post-order); marking it inside the successor loop makes a "
+            "vertex reachable by two routes look like a back edge", {"entered_line": ent[0].lineno, "loop_line": lp.lineno, "exited_line": ext[0].lineno})
+    rec = [k for k in calls_in(lp) if norm(k.func) == dfs.name]
+    r.check(len(rec) == 1 and norm(rec[0].args[0]) == norm(lp.target), f, lp, "every successor must be explored recursively")
+    s = norm(dfs)
+    r.check("not directed and tree_edges.get(%s, None) != y or (directed and y not in exited)" % node in s, f, f.node,
+            "back edge: undirected -> an entered neighbour that is not the tree parent; directed -> an entered neighbour that has not been exited")
+    outer = [n for n in f.node.body if isinstance(n, ast.For)]
+    r.check(len(outer) == 1 and norm(outer[0].iter) == "range(len(adjacency_list))", f, f.node, "every vertex must be tried as a start (disconnected graphs)")
+
+
+RULES = [rule_r1, rule_r2, rule_r3, rule_r4, rule_r5, rule_r6]
 
 WITNESSES = [
     Witness("C14.W1", "menpo/shape/graph.py", "DirectedGraph.parents", "self.adjacency_matrix[:, vertex].nonzero()[0]", "self.adjacency_matrix[vertex, :].nonzero()[1]",
@@ -351,6 +390,10 @@ WITNESSES = [
     Witness("C14.W9", "menpo/shape/graph.py", "Tree.is_leaf", "len(self.children(vertex)) == 0", "len(self.parents(vertex)) == 0", rule="C14.R5", construct="Tree.is_leaf"),
     Witness("C14.W10", "menpo/shape/graph.py", "PointTree.from_mask", "if not mask[self.root_vertex]:\n            raise ValueError('Cannot remove root vertex.')", "pass",
             rule="C14.R3", construct="PointTree.from_mask"),
+    Witness("C14.W11", "menpo/shape/graph.py", "PointTree.from_mask", "            root_vertex = root_vertex - np.sum(~mask[:root_vertex])", "            root_vertex = self.root_vertex - np.sum(~mask[:self.root_vertex])",
+            rule="C14.R3", construct="PointTree.from_mask", note="seeded change C14-A"),
+    Witness("C14.W12", "menpo/shape/graph.py", "_has_cycles", "                dfs(y, entered, exited, tree_edges, back_edges)\n            exited.add(node)", "                dfs(y, entered, exited, tree_edges, back_edges)\n                exited.add(node)",
+            rule="C14.R6", construct="_has_cycles", note="seeded change C14-B"),
     Witness("C14.T1", "menpo/shape/graph.py", "Graph.get_adjacency_list", "from_v = rows[i]\n        to_v = cols[i]\n        adjacency_list[from_v].append(to_v)",
             "adjacency_list[rows[i]].append(cols[i])", kind="T"),
 ]
